@@ -22,6 +22,14 @@ CHECKS = {
          "with the no-aliasing assumption only for assignments where different pointers do not overlap.",
     note="Bound: length <=2 full alphabet, length 3 reduced (quick) / larger + length 4 reduced (thorough). Known findings: endianness lost in the write trace; aliasing window after a narrower store.",
     design="DESIGN.md section 3, C09"),
+ "C10": dict(
+    category="model_checking",
+    technique="explicit-state BFS over process-global mutable state (module-level register objects' size/sf/etype/_subrefs, internals, regtype.cur, pending prefix) with transitions = decode+symbolic execution/evaluation; invariant = probe blocks evaluate identically (rebuilt and old map objects) in every reachable global state",
+    text="Per ISA mode in a fresh process the global state is snapshotted; every spec-driven executable instruction is a transition (plus map evaluation and a failing decode); states are de-duplicated on the snapshot "
+         "(restore fidelity and probe reproducibility asserted); in every new global state every probe block - the derived alphabet plus automatically detected sign-sensitive consumers - is rebuilt and evaluated on three concrete "
+         "states and the map objects built in the initial state are re-evaluated; all constants must be unchanged.",
+    note="Depth 2 (quick) / 3 (thorough); below the first level only the alphabet is applied. Known findings: semantics that call .signed()/set sf on shared registers (x86 ADD/DEC/SCAS -> IMUL, ARM, tricore, pic18, sh2) and ARM SETEND/BXJ changing internals.",
+    design="DESIGN.md section 3, C10"),
  "C11": dict(
     category="model_checking",
     technique="explicit-state exploration of all decode-call sequences (depth 3/4) over a per-ISA menu on the one real disassembler object; state = pending prefix instruction; reference = same call made first in a fresh process",
